@@ -143,6 +143,25 @@ fn main() {
                 run_legacy(&mut sink, "legacy-part-under-other-root", &p, latest);
                 run_legacy(&mut sink, "legacy-only-other-root", &[(q, MP::from_value(&serde_json::to_value(&op).unwrap()))], latest);
             }
+            // a forged, self-consistent sub-proof (its own little tree containing a never-certified hash) slipped in under a
+            // key the proof already has — before, after — or under a fresh key; the forged hash is listed as an item
+            {
+                let fake = hex(&rng.bytes(32));
+                let fl: Vec<MKTreeNode> = vec![MKTreeNode::new(fake.clone().into_bytes()), MKTreeNode::new(hex(&rng.bytes(32)).into_bytes())];
+                let ft = MKTree::<S>::new(&fl).unwrap();
+                let fp = P::from_proof(&ft.compute_proof(&fl[0..1]).unwrap());
+                if !parts[0].1.subs.is_empty() {
+                    let nsub = parts[0].1.subs.len();
+                    for (tag, at, fresh) in [("legacy-forged-sub-same-key-front", 0usize, false), ("legacy-forged-sub-same-key-after", nsub, false), ("legacy-forged-sub-same-key-adjacent", 1usize.min(nsub), false), ("legacy-forged-sub-fresh-key", nsub, true)] {
+                        let mut p = parts.clone();
+                        let key = if fresh { BlockRange::from_block_number(BlockNumber(15 * (3000 + rng.below(100)))) } else { p[0].1.subs[if at == 0 || at == 1 { 0 } else { nsub - 1 }].0.clone() };
+                        let kb: MKTreeNode = key.clone().into();
+                        p[0].1.subs.insert(at, (key, kb.to_vec(), MP { master: fp.clone(), subs: vec![] }));
+                        p[0].0.push(fake.clone());
+                        run_legacy(&mut sink, tag, &p, latest);
+                    }
+                }
+            }
             // sub-proof detached / master root altered
             let mut p = parts.clone(); p[0].1.master.root[0] ^= 1; run_legacy(&mut sink, "legacy-root-altered", &p, latest);
             let mut p = parts.clone(); if !p[0].1.subs.is_empty() { p[0].1.subs.remove(0); } run_legacy(&mut sink, "legacy-sub-removed", &p, latest);
@@ -193,6 +212,24 @@ fn main() {
             let mut it = q.clone(); it[0].block_hash = hex(&rng.bytes(32)); run_v2(&mut sink, "v2-item-block-hash-altered", Some(&it), &honest_mp, latest, offset);
             let mut it = q.clone(); it[0].transaction_hash = hex(&rng.bytes(32)); run_v2(&mut sink, "v2-item-renamed", Some(&it), &honest_mp, latest, offset);
             let mut it = q.clone(); it.push(CardanoTransaction::new(hex(&rng.bytes(32)), BlockNumber(1), SlotNumber(1), hex(&rng.bytes(32)))); run_v2(&mut sink, "v2-item-added", Some(&it), &honest_mp, latest, offset);
+            // forged self-consistent sub-proof under an existing / a fresh key, the forged transaction listed as an item
+            {
+                let fake = CardanoTransaction::new(hex(&rng.bytes(32)), BlockNumber(2), SlotNumber(45), hex(&rng.bytes(32)));
+                let fl: Vec<MKTreeNode> = vec![fake.clone().into_mk_tree_node(), MKTreeNode::new(rng.bytes(40))];
+                let ft = MKTree::<S>::new(&fl).unwrap();
+                let fp = P::from_proof(&ft.compute_proof(&fl[0..1]).unwrap());
+                if !honest_mp.subs.is_empty() {
+                    let nsub = honest_mp.subs.len();
+                    for (tag, at, fresh) in [("v2-forged-sub-same-key-front", 0usize, false), ("v2-forged-sub-same-key-after", nsub, false), ("v2-forged-sub-fresh-key", nsub, true)] {
+                        let mut mp = honest_mp.clone();
+                        let key = if fresh { BlockRange::from_block_number(BlockNumber(15 * (3000 + rng.below(100)))) } else { mp.subs[if at == 0 { 0 } else { nsub - 1 }].0.clone() };
+                        let kb: MKTreeNode = key.clone().into();
+                        mp.subs.insert(at, (key, kb.to_vec(), MP { master: fp.clone(), subs: vec![] }));
+                        let mut it = q.clone(); it.push(fake.clone());
+                        run_v2(&mut sink, tag, Some(&it), &mp, latest, offset);
+                    }
+                }
+            }
             let mut mp = honest_mp.clone(); mp.master.root[0] ^= 1; run_v2(&mut sink, "v2-root-altered", Some(&q), &mp, latest, offset);
             let mut mp = honest_mp.clone(); if !mp.subs.is_empty() { let k = rng.below(mp.subs.len() as u64) as usize; mp.subs.remove(k); } run_v2(&mut sink, "v2-sub-removed", Some(&q), &mp, latest, offset);
             // a block leaf presented as a transaction? not expressible: item type fixes the prefix. Proof of blocks for tx items:
